@@ -909,3 +909,90 @@ v("c17-nul-escape-rejected", "C17", "ESCAPE-RANGE", L + "lexer.py",
 v("c17-block-string-rejects-c0-controls", "C17", "BLOCK-CHARSET", L + "lexer.py",
   "            if is_unicode_scalar_value(char):\n                position += 1\n            elif is_supplementary_code_point(body, position):\n                position += 2\n            else:\n                raise GraphQLSyntaxError(\n                    self.source,\n                    position,\n                    \"Invalid character within String:\"\n                    f\" {self.print_code_point_at(position)}.\",\n                )\n\n        raise GraphQLSyntaxError(self.source, position, \"Unterminated string.\")\n\n    def read_name",
   "            if is_unicode_scalar_value(char) and (char >= \" \" or char == \"\\t\"):\n                position += 1\n            elif is_supplementary_code_point(body, position):\n                position += 2\n            else:\n                raise GraphQLSyntaxError(\n                    self.source,\n                    position,\n                    \"Invalid character within String:\"\n                    f\" {self.print_code_point_at(position)}.\",\n                )\n\n        raise GraphQLSyntaxError(self.source, position, \"Unterminated string.\")\n\n    def read_name")
+
+# -- round 6 -------------------------------------------------------------------------------------------------
+v("c08-list-layout-by-source-extent", "C08", "PRINTER-COVERAGE", L + "printer.py",
+  "        values = node.values\n        values_line = f\"[{join(values, ', ')}]\"\n",
+  "        values = node.values\n        if node.loc and node.loc.end - node.loc.start <= 80:\n            return f\"[{join(values, ', ')}]\"\n        values_line = f\"[{join(values, ', ')}]\"\n")
+v("c18-directives-tested-after-visited-mark", "C18", "VISITED-COLLECTED", E + "collect_fields.py",
+  "            frag_name = selection.name.value\n\n            if not should_include_node(\n                context, selection, variable_values, fragment_variable_values\n            ):\n                continue\n\n            fragment = fragments.get(frag_name)\n",
+  "            frag_name = selection.name.value\n\n            fragment = fragments.get(frag_name)\n",
+  extra_edits=[{"file": E + "collect_fields.py",
+                "old": "                maybe_new_defer_usage = new_defer_usage\n\n            fragment_variable_signatures = fragment.variable_signatures\n",
+                "new": "                maybe_new_defer_usage = new_defer_usage\n\n            if not should_include_node(\n                context, selection, variable_values, fragment_variable_values\n            ):\n                continue\n\n            fragment_variable_signatures = fragment.variable_signatures\n"}])
+v("c06-cleanup-raises-flag-after-callback", "C06", "ONCE-FLAG-FIRST", E + "incremental/stream_item_queue.py",
+  "        \"\"\"Cancel all pending work, awaiting it, and run the abort callback.\"\"\"\n        self._aborted = True\n        producer_task = self._producer_task\n",
+  "        \"\"\"Cancel all pending work, awaiting it, and run the abort callback.\"\"\"\n        producer_task = self._producer_task\n",
+  extra_edits=[{"file": E + "incremental/stream_item_queue.py",
+                "old": "            cleanup = on_abort(reason)\n            if is_awaitable(cleanup):\n                await cleanup\n",
+                "new": "            cleanup = on_abort(reason)\n            if is_awaitable(cleanup):\n                await cleanup\n        self._aborted = True\n"}])
+v("c06-nulled-response-skips-work-collection", "C06", "NULLED-ABORTED", E + "incremental/incremental_executor.py",
+  "        work = self.get_incremental_work()\n        if not work.tasks and not work.streams:\n            return super().build_response(data)\n",
+  "        if data is None:\n            return super().build_response(data)\n        work = self.get_incremental_work()\n        if not work.tasks and not work.streams:\n            return super().build_response(data)\n")
+v("c03-async-rows-completed-at-field-path", "C03", "PATH-THREAD", E + "executor.py",
+  "                info,\n                path,\n                async_iterator,\n", "                info,\n                info.path,\n                async_iterator,\n")
+v("c02-null-item-shortcut-skips-index", "C02", "LOOP-COUNTER", E + "executor.py",
+  "                # No need to modify the info object containing the path,\n                # since from here on it is not ever accessed by resolver functions.\n                item_path = path.add_key(index, None)\n",
+  "                if item is None and not is_non_null_type(item_type):\n                    append_completed(None)\n                    continue\n                item_path = path.add_key(index, None)\n")
+v("c11-skip-marker-is-depth", "C11", "SKIP-SLOT", L + "visitor.py",
+  "                                skipping[i] = node\n", "                                skipping[i] = len(args[2])\n",
+  extra_edits=[{"file": L + "visitor.py", "old": "                        elif skipping[i] is node:\n", "new": "                        elif skipping[i] == len(args[2]):\n"}])
+v("c11-skip-marker-through-local", "C11", "SKIP-SLOT", L + "visitor.py",
+  "                                skipping[i] = node\n", "                                skipped_at = node\n                                skipping[i] = skipped_at\n",
+  expect="silent")
+v("c19-sorted-field-drops-deprecated-args", "C19", "SORT-PERMUTES", U + "lexicographic_sort_schema.py",
+  "                SchemaElementKind.FIELD: lambda config, *_args: {\n                    **config,\n                    \"args\": sort_obj_map(config[\"args\"]),\n",
+  "                SchemaElementKind.FIELD: lambda config, *_args: {\n                    **config,\n                    \"args\": sort_obj_map(\n                        {k: a for k, a in config[\"args\"].items() if a.deprecation_reason is None}\n                    ),\n")
+v("c19-sort-by-name-reversed-slice", "C19", "SORT-PERMUTES", U + "lexicographic_sort_schema.py",
+  "    return sort_by(array, lambda obj: obj.name)\n", "    return sort_by(array, lambda obj: obj.name)[:50]\n")
+v("c17-field-argument-types-not-followed", "C17", "REFERENCED-COMPLETE", T + "schema.py",
+  "                collect_referenced_types(field.type)\n                for arg in field.args.values():\n                    collect_referenced_types(arg.type)\n",
+  "                collect_referenced_types(field.type)\n")
+v("c17-object-and-interface-branches-split", "C17", "REFERENCED-COMPLETE", T + "schema.py",
+  "        elif is_object_type(named_type) or is_interface_type(named_type):\n            for interface_type in named_type.interfaces:\n                collect_referenced_types(interface_type)\n\n            for field in named_type.fields.values():\n                collect_referenced_types(field.type)\n                for arg in field.args.values():\n                    collect_referenced_types(arg.type)\n",
+  "        elif is_object_type(named_type):\n            for interface_type in named_type.interfaces:\n                collect_referenced_types(interface_type)\n            for field in named_type.fields.values():\n                collect_referenced_types(field.type)\n                for arg in field.args.values():\n                    collect_referenced_types(arg.type)\n        elif is_interface_type(named_type):\n            for super_type in named_type.interfaces:\n                collect_referenced_types(super_type)\n            for iface_field in named_type.fields.values():\n                collect_referenced_types(iface_field.type)\n                for iface_arg in iface_field.args.values():\n                    collect_referenced_types(iface_arg.type)\n",
+  expect="silent")
+v("c20-cycle-edge-needs-required-field", "C20", "CYCLE-EDGE", T + "validate.py",
+  "            if is_non_null_type(field.type) and is_input_object_type(\n                field.type.of_type\n            ):\n",
+  "            if is_required_input_field(field) and is_input_object_type(\n                field.type.of_type\n            ):\n")
+v("c20-cycle-edge-named-boolean", "C20", "CYCLE-EDGE", T + "validate.py",
+  "            if is_non_null_type(field.type) and is_input_object_type(\n                field.type.of_type\n            ):\n",
+  "            non_null = is_non_null_type(field.type)\n            if non_null and is_input_object_type(field.type.of_type):\n",
+  expect="silent")
+v("c01-value-table-indexed", "C01", "PARSE-RAISES", L + "parser.py",
+  "        method_name = self._parse_value_literal_method_names.get(self._lexer.token.kind)\n        if method_name:  # pragma: no cover\n            return getattr(self, f\"parse_{method_name}\")(is_const)\n        raise self.unexpected()  # pragma: no cover\n",
+  "        method_name = self._parse_value_literal_method_names[self._lexer.token.kind]\n        return getattr(self, f\"parse_{method_name}\")(is_const)\n")
+v("c01-value-table-indexed-after-membership-test", "C01", "PARSE-RAISES", L + "parser.py",
+  "        method_name = self._parse_value_literal_method_names.get(self._lexer.token.kind)\n        if method_name:  # pragma: no cover\n            return getattr(self, f\"parse_{method_name}\")(is_const)\n        raise self.unexpected()  # pragma: no cover\n",
+  "        kind = self._lexer.token.kind\n        if kind in self._parse_value_literal_method_names:\n            method_name = self._parse_value_literal_method_names[kind]\n            return getattr(self, f\"parse_{method_name}\")(is_const)\n        raise self.unexpected()\n",
+  expect="silent")
+v("c07-argument-values-memoised-on-executor", "C07", "ARGS-FRESH", E + "executor.py",
+  "            args = get_argument_values(\n                field_def,\n                first_field_node,\n                self.variable_values,\n                first_field_details.fragment_variable_values,\n                self.hide_suggestions,\n            )\n",
+  "            args = self._argument_values.get(id(first_field_node))\n            if args is None:\n                args = self._argument_values[id(first_field_node)] = get_argument_values(\n                    field_def,\n                    first_field_node,\n                    self.variable_values,\n                    first_field_details.fragment_variable_values,\n                    self.hide_suggestions,\n                )\n")
+v("c07-argument-values-through-helper-method", "C07", "ARGS-FRESH", E + "executor.py",
+  "            args = get_argument_values(\n                field_def,\n                first_field_node,\n                self.variable_values,\n                first_field_details.fragment_variable_values,\n                self.hide_suggestions,\n            )\n",
+  "            args = self.coerce_field_arguments(field_def, first_field_details)\n",
+  extra_edits=[{"file": E + "executor.py", "old": "    def build_resolve_info(\n",
+                "new": "    def coerce_field_arguments(self, field_def: GraphQLField, details: FieldDetails) -> dict[str, Any]:\n        return get_argument_values(\n            field_def, details.node, self.variable_values, details.fragment_variable_values, self.hide_suggestions\n        )\n\n    def build_resolve_info(\n"}],
+  expect="silent")
+v("c20-conventional-roots-dropped-with-schema-extension", "C20", "ROOT-NAMES-AGREE", U + "build_ast_schema.py",
+  "    if not schema_kwargs[\"ast_node\"]:\n", "    if not (schema_kwargs[\"ast_node\"] or schema_kwargs[\"extension_ast_nodes\"]):\n")
+v("c20-conventional-roots-test-through-local", "C20", "ROOT-NAMES-AGREE", U + "build_ast_schema.py",
+  "    if not schema_kwargs[\"ast_node\"]:\n", "    schema_def = schema_kwargs[\"ast_node\"]\n    if schema_def is None:\n",
+  expect="silent")
+v("c09-leading-zero-test-in-helper", "C09", "NUMBER-PARTS", L + "lexer.py",
+  "        if char == \"0\":\n            position += 1\n            char = body[position : position + 1]\n            if is_digit(char):\n                raise GraphQLSyntaxError(\n                    self.source,\n                    position,\n                    \"Invalid number, unexpected digit after 0:\"\n                    f\" {self.print_code_point_at(position)}.\",\n                )\n        else:\n            position = self.read_digits(position, char)\n            char = body[position : position + 1]\n        if char == \".\":\n",
+  "        position = self.read_integer(position, char)\n        char = body[position : position + 1]\n        if char == \".\":\n",
+  extra_edits=[{"file": L + "lexer.py", "old": "    def read_digits(self, start: int, first_char: str) -> int:\n",
+                "new": "    def read_integer(self, start: int, first_char: str) -> int:\n        if first_char != \"0\":\n            return self.read_digits(start, first_char)\n        position = start + 1\n        if is_digit(self.source.body[position : position + 1]):\n            raise GraphQLSyntaxError(\n                self.source,\n                position,\n                \"Invalid number, unexpected digit after 0:\"\n                f\" {self.print_code_point_at(position)}.\",\n            )\n        return position\n\n    def read_digits(self, start: int, first_char: str) -> int:\n"}],
+  expect="silent")
+v("c15-directive-slot-never-reset", "C15", "TYPEINFO-BALANCE", U + "type_info.py",
+  "    def leave_directive(self) -> None:\n        self._directive = None\n", "    def leave_directive(self) -> None:\n        pass\n")
+v("c07-foreign-nodes-attribute-trusted", "C07", "UNTRUSTED-ATTR", "src/graphql/error/located_error.py",
+  "        if is_node_collection(original_nodes):\n            nodes = original_nodes or nodes\n", "        nodes = original_nodes or nodes\n")
+v("c16-int-input-range-by-bit-length", "C16", "DOMAIN-GUARDS", T + "scalars.py",
+  "def coerce_int(input_value: Any) -> int:\n    if isinstance(input_value, (int, float)) and not isinstance(input_value, bool):\n        return coerce_int_from_number(input_value)\n",
+  "def coerce_int(input_value: Any) -> int:\n    if isinstance(input_value, int) and not isinstance(input_value, bool) and input_value.bit_length() <= 31:\n        return int(input_value)\n    if isinstance(input_value, float):\n        return coerce_int_from_number(input_value)\n")
+v("c14-wrappers-stripped-wholesale", "C14", "WRAPPER-PAIRING", V + "rules/overlapping_fields_can_be_merged.py",
+  "    if is_list_type(type1):\n        return (\n            do_types_conflict(type1.of_type, type2.of_type)\n            if is_list_type(type2)\n            else True\n        )\n    if is_list_type(type2):\n        return True\n    if is_non_null_type(type1):\n        return (\n            do_types_conflict(type1.of_type, type2.of_type)\n            if is_non_null_type(type2)\n            else True\n        )\n    if is_non_null_type(type2):\n        return True\n",
+  "    if is_non_null_type(type1) != is_non_null_type(type2) or is_list_type(type1) != is_list_type(type2):\n        return True\n    type1 = get_named_type(type1)\n    type2 = get_named_type(type2)\n")
